@@ -152,6 +152,40 @@ def show(e) -> str:
     return str(e)
 
 
+def canon(e):
+    """Canonical form of a template expression, so that equivalent spellings of an index computation compare equal:
+       (a / b) | int                      ->  a // b                 (non-negative operands: loop counters, lengths)
+       (X | map(..) | list) | length      ->  X | length             (map / list keep the number of items)
+       (X | map(F, args) | list)[i]       ->  X[i] | F(args)         (the i-th mapped item is the mapped i-th item;
+       (X | map(attribute="a") | list)[i] ->  X[i].a                  `| list` of a plain sequence is the sequence)
+    Applied bottom-up; anything else is left as it is."""
+    if not isinstance(e, tuple) or not e:
+        return e
+    e = tuple(canon(x) if isinstance(x, tuple) else x for x in e)
+    k = e[0]
+    if k == "filter" and e[1] == "int" and not e[3] and not e[4] and e[2][0] == "bin" and e[2][1] == "/":
+        return ("bin", "//", e[2][2], e[2][3])
+    if k == "filter" and e[1] == "length" and not e[3] and not e[4]:
+        x = e[2]
+        while x[0] == "filter" and x[1] in ("list", "map"):
+            x = x[2]
+        return ("filter", "length", x, (), ())
+    if k == "item":
+        base, idx = e[1], e[2]
+        if base[0] == "filter" and base[1] == "list" and not base[3] and not base[4]:
+            inner = base[2]
+            if inner[0] == "filter" and inner[1] == "map":
+                src = canon(("item", ("filter", "list", inner[2], (), ()), idx))
+                if not inner[3] and len(inner[4]) == 1 and inner[4][0][0] == "attribute" and inner[4][0][1][0] == "const" and "." not in str(inner[4][0][1][1]):
+                    return ("attr", src, inner[4][0][1][1])
+                if inner[3] and inner[3][0][0] == "const" and isinstance(inner[3][0][1], str):
+                    return ("filter", inner[3][0][1], src, tuple(inner[3][1:]), tuple(inner[4]))
+                return e
+            if inner[0] in ("attr", "name"):
+                return ("item", inner, idx)
+    return e
+
+
 def unfilter(e, transparent=()):
     """Strip filters; -> (base expr, [(name, args, kwargs), ...] innermost first)."""
     fs = []
